@@ -103,8 +103,8 @@ func (s *State) ApplyCommands(logFh *os.File) error {
 	func() {
 		s.scheduleReload()
 		defer s.cancelReload()
-		s.Conn.SendCmd("configure terminal")
-		defer s.Conn.SendCmd("end")
+		s.sendCmd("configure terminal")
+		defer s.sendCmd("end")
 		for _, chg := range s.Changes {
 			s.cmd(chg)
 		}
@@ -152,15 +152,42 @@ func (s *State) writeMem() {
 	}
 }
 
+// Send command while reload is scheduled. Output of command is ignored.
+// If only a reload banner with additional prompt is seen,
+// wait for the real prompt of command.
+func (s *State) sendCmd(cmd string) {
+	s.Conn.Send(cmd)
+	out, _ := s.stripReloadBanner(s.Conn.GetOutput())
+	for s.reloadActive && strings.TrimSpace(out) == "" {
+		out, _ = s.stripReloadBanner(s.Conn.GetOutput())
+	}
+}
+
 // Send 1 or 2 commands in one data packet to device.
 // No output expected from commands.
 func (s *State) cmd(cmd string) {
 	c1, c2, _ := strings.Cut(cmd, "\n")
 	s.Conn.Send(cmd)
 	needReload := false
-	check := func(ci string) {
+	getOutput := func() string {
 		out := s.Conn.GetOutput()
-		out, needReload = s.stripReloadBanner(out)
+		out, need := s.stripReloadBanner(out)
+		// Remember request for renewal from first of two commands.
+		needReload = needReload || need
+		return out
+	}
+	check := func(ci string) {
+		out := getOutput()
+		// If a reload banner is shown while waiting at prompt or
+		// directly behind the echo of a command, an additional prompt
+		// is shown because of 'logging synchronous'.
+		// Output consisting only of such an additional prompt can't be
+		// the echo of current command. Skip it and read next output.
+		// This doesn't depend on the time, when that prompt arrives
+		// and doesn't consume output of second command.
+		for s.reloadActive && strings.TrimSpace(out) == "" {
+			out = getOutput()
+		}
 		out = s.Conn.StripEcho(ci, out)
 		if out != "" {
 			if !isValidOutput(ci, out) {
@@ -262,24 +289,7 @@ func (s *State) stripReloadBanner(out string) (string, bool) {
 		// Find message inside banner.
 		if l := bannerRe.FindStringSubmatchIndex(out); l != nil {
 			msg := out[l[2]:l[3]]
-			prefix := out[:l[0]]
-			postfix := out[l[1]:]
-			out = prefix + postfix
-			if strings.TrimSpace(prefix+postfix) == "" {
-				// Because of 'logging synchronous' we are sure to get another prompt
-				// if the banner is the only output before current prompt.
-				// Read next prompt.
-				errlog.Info("Found banner before output, expecting another prompt")
-				out = s.Conn.WaitShort(`[#] ?$`)
-				out = s.Conn.StripStdPrompt(out)
-			} else if prefix != "" && strings.TrimSpace(postfix) == "" {
-				// Try to read another prompt if banner is shown directly
-				// behind current output.
-				errlog.Info("Found banner after output, checking another prompt")
-				if s.Conn.TryPrompt() {
-					errlog.Info("- Found prompt")
-				}
-			}
+			out = out[:l[0]] + out[l[1]:]
 			matched, _ := regexp.MatchString(`SHUTDOWN in 0?0:01:00`, msg)
 			return out, matched
 		}
